@@ -408,7 +408,9 @@ def fmt_default_value(field):
             bool_str = 'NO'
         return '@{}'.format(bool_str)
     elif is_string_type(field.data_type):
-        return '@"{}"'.format(field.default)
+        escaped = (field.default.replace('\\', '\\\\').replace('"', '\\"').replace('\n', '\\n')
+                   .replace('\r', '\\r').replace('\t', '\\t'))
+        return '@"{}"'.format(escaped)
     else:
         raise TypeError(
             'Can\'t handle default value type %r' % type(field.data_type))
